@@ -4,8 +4,24 @@
 // reachable from operator kernels the drivers never wire; the link uses
 // --unresolved-symbols=ignore-in-object-files for those. The two registration entry points below are
 // *called* by register_standard_operators(), so they get real (empty) definitions.
+#include <hgraph/lib/std/operators/impl/conversion_impl.h>
+
 namespace hgraph::stdlib
 {
-    void register_conversion_operators() {}
+    // conversion_impl.cpp cannot be compiled offline (it needs simdjson for one UTF-8 helper). The drivers need the
+    // header-only operator implementations it registers for wiring constants (`const`), `nothing`, `zero` and
+    // `default`; they are registered here exactly as conversion_impl.cpp does. The runtime value converters and the
+    // str/convert/collect families stay unregistered (no property is anchored in them).
+    void register_conversion_operators()
+    {
+        register_overload<const_, const_source>();
+        register_overload<const_, const_delayed>();
+        register_overload<nothing, nothing_source>();
+        register_graph_overload<zero_, zero_int>();
+        register_graph_overload<zero_, zero_float>();
+        register_graph_overload<zero_, zero_str>();
+        register_overload<zero_, zero_tsd>();
+        register_graph_overload<default_, default_impl>();
+    }
     void register_json_operators() {}
 }  // namespace hgraph::stdlib
